@@ -4,9 +4,11 @@ open Pyemv Pyemv.Gen
 
 theorem mac_pad1 (d : Bytes) (bs : Option Nat) : Gen.mac.pad_iso9797_1 d bs = pad1 d bs := by
   unfold Gen.mac.pad_iso9797_1 pad1 pyMod
+  try simp only [bind_pure]      -- `do let v ← e; pure v` is `e` (single-exit rewrites)
   by_cases h : bs.getD 8 = 0
   · simp [h, bind, Except.bind]
   · simp only [h, if_false, bind, Except.bind, pure, Except.pure, rep_flatten, zeros, gt_iff_lt]
     repeat (first | rfl | split)
+    all_goals first | (simp_all; done) | omega | slice_forms
 
 end Pyemv.ModRefines
